@@ -169,6 +169,14 @@ def random_module(rng: random.Random, max_claims=6, with_imports=True, syms=SYMS
             tags.add('import_chain_through_axiomless_module')
         for s in subs:
             mod.import_module(s)
+        if rng.random() < 0.3:
+            # a module that is still empty when it is imported and receives its axioms afterwards
+            late = PR.ProofExp()
+            mod.import_module(late)
+            for _ in range(rng.randint(1, 2)):
+                late.add_axiom(pat(rng, 1, 0.0, 0.2, syms))
+            subs.append(late)
+            tags.add('import_filled_after_import')
         tags.add('imports')
     # own axioms
     axioms = []
@@ -420,6 +428,14 @@ def random_module(rng: random.Random, max_claims=6, with_imports=True, syms=SYMS
         if any(E(th.conc) == E(c.conc) for c, _ in chosen):
             continue
         chosen.append((th, d))
+    if own_axioms and rng.random() < 0.05:
+        # the same pattern claimed twice in a row (two proofs of it): allowed, and each claim is built and published on its own
+        ax_ = rng.choice(own_axioms)
+        if not any(E(ax_) == E(c.conc) for c, _ in chosen):
+            chosen = chosen[:rng.randint(0, len(chosen))]
+            pos_ = rng.randint(0, len(chosen))
+            chosen[pos_:pos_] = [(mod.load_axiom(ax_), 'load_axiom'), (mod.load_axiom(ax_), 'load_axiom (same claim again)')]
+            tags.add('same_claim_twice_in_a_row')
     order_ = list(range(len(chosen)))
     if len(chosen) >= 2 and rng.random() < 0.04:
         # the proofs are listed in another order than the claims: every Publish discharges the NEXT claim, so the toolkit has to refuse
